@@ -334,8 +334,8 @@ impl<F: Fl> DWorld<F> {
                 };
                 let a = self.node(u);
                 let cfg = match t {
-                    Some(t) => Cfg { kind: Kind::Bfs, transpose: false, target: Some(t), meth: Meth::None, res: ResK::Path, alt: false },
-                    None => Cfg { kind: Kind::Dfs, transpose: false, target: None, meth: Meth::None, res: ResK::Cycle, alt: false },
+                    Some(t) => Cfg { kind: Kind::Bfs, transpose: false, target: Some(t), meth: Meth::None, res: ResK::Path, alt: false, tt: false },
+                    None => Cfg { kind: Kind::Dfs, transpose: false, target: None, meth: Meth::None, res: ResK::Cycle, alt: false, tt: false },
                 };
                 match F::search_path_obj(&a, &cfg, &mut |_| true) {
                     Some(p) => {
@@ -350,7 +350,7 @@ impl<F: Fl> DWorld<F> {
             }
             DOp::TakeFound(u, t) => {
                 let a = self.node(u);
-                let cfg = Cfg { kind: Kind::Dfs, transpose: false, target: Some(t), meth: Meth::None, res: ResK::Search, alt: false };
+                let cfg = Cfg { kind: Kind::Dfs, transpose: false, target: Some(t), meth: Meth::None, res: ResK::Search, alt: false, tt: false };
                 let (_, mut nodes) = F::search(&a, &cfg, &mut |_| true);
                 match nodes.pop() {
                     Some(n) if F::key(&n) == t => {
@@ -378,7 +378,7 @@ impl<F: Fl> DWorld<F> {
             DOp::PfsTraverse(u) => {
                 let a = self.node(u);
                 for kind in [Kind::PfsMin, Kind::PfsMax] {
-                    let cfg = Cfg { kind, transpose: false, target: None, meth: Meth::ForEach, res: ResK::Search, alt: false };
+                    let cfg = Cfg { kind, transpose: false, target: None, meth: Meth::ForEach, res: ResK::Search, alt: false, tt: false };
                     let _ = F::search(&a, &cfg, &mut |_| true);
                 }
             }
@@ -403,16 +403,16 @@ impl<F: Fl> DWorld<F> {
                             for &t in &order {
                                 if t != u {
                                     for res in [ResK::Path, ResK::Search] {
-                                        let cfg = Cfg { kind, transpose, target: Some(t as K), meth: Meth::None, res, alt: false };
+                                        let cfg = Cfg { kind, transpose, target: Some(t as K), meth: Meth::None, res, alt: false, tt: false };
                                         drop(F::search(&a, &cfg, &mut |_| true));
                                     }
                                 }
                             }
-                            let cfg = Cfg { kind, transpose, target: None, meth: Meth::None, res: ResK::Cycle, alt: false };
+                            let cfg = Cfg { kind, transpose, target: None, meth: Meth::None, res: ResK::Cycle, alt: false, tt: false };
                             drop(F::search(&a, &cfg, &mut |_| true));
                         }
                         for kind in [Kind::Pre, Kind::Post] {
-                            let cfg = Cfg { kind, transpose, target: None, meth: Meth::None, res: ResK::Nodes, alt: false };
+                            let cfg = Cfg { kind, transpose, target: None, meth: Meth::None, res: ResK::Nodes, alt: false, tt: false };
                             drop(F::search(&a, &cfg, &mut |_| true));
                         }
                     }
